@@ -183,7 +183,11 @@ def main():
             metric: pm.states.descriptor_handle.get_one(metric).StateVersion,
             'p1': pm.context_states.handle.get_one('p1').StateVersion,
             'descr': pm.descriptions.handle.get_one(metric).DescriptorVersion,
-            'gen_exists': pm.descriptions.handle.get_one(GEN, allow_none=True) is not None}
+            'gen_exists': pm.descriptions.handle.get_one(GEN, allow_none=True) is not None,
+            # content (semantic value hashes): what a response that states this version may show
+            'c:' + metric: canon.payload(pm.states.descriptor_handle.get_one(metric)),
+            'c:p1': canon.payload(pm.context_states.handle.get_one('p1')),
+            'c:descr': canon.payload(pm.descriptions.handle.get_one(metric))}
     record()
     counter = [100]
 
@@ -294,6 +298,48 @@ def main():
         w.stop()
         print(json.dumps(out))
         return
+    def observe(name, res):
+        v = res.mdib_version_group.mdib_version
+        seen = {}
+        if name.startswith('GetMdib'):
+            _, states = res.result
+            for s in states:
+                if getattr(s, 'DescriptorHandle', None) == metric and not s.is_context_state:
+                    seen[metric] = s.StateVersion
+                    seen['c:' + metric] = canon.payload(s)
+                elif s.is_context_state and s.Handle == 'p1':
+                    seen['p1'] = s.StateVersion        # GetMdib carries the context states too
+                    seen['c:p1'] = canon.payload(s)
+            descrs = res.result[0]
+            for d in descrs:
+                if d.Handle == metric:
+                    seen['descr'] = d.DescriptorVersion
+                    seen['c:descr'] = canon.payload(d)
+        elif name == 'GetMdStateGen':
+            seen['gen_exists'] = any(s.DescriptorHandle == GEN for s in res.result.MdState.State)
+        elif name.startswith('GetMdState'):
+            for s in res.result.MdState.State:
+                if s.DescriptorHandle == metric and not s.is_context_state:
+                    seen[metric] = s.StateVersion
+                    seen['c:' + metric] = canon.payload(s)
+        elif name.startswith('GetContextStates'):
+            for s in res.result.ContextState:
+                if s.Handle == 'p1':
+                    seen['p1'] = s.StateVersion
+                    seen['c:p1'] = canon.payload(s)
+        elif name.startswith('GetMdDescription'):
+            for d in res.result.MdDescription.Mds if hasattr(res.result, 'MdDescription') else []:
+                pass
+            node = res.p_msg.msg_node if hasattr(res, 'p_msg') else None
+            if name == 'GetMdDescriptionGen':
+                # "returns either all descriptors or none": all iff the requested handle exists at that version
+                seen['gen_exists'] = node is not None and any(el.get('Handle') == metric for el in node.iter())
+            elif node is not None:
+                for el in node.iter():
+                    if el.get('Handle') == metric and el.get('DescriptorVersion') is not None:
+                        seen['descr'] = int(el.get('DescriptorVersion'))
+        return v, seen
+
     # ---------------- (b) deterministic interleavings: inject a commit at every depth-0 point of every handler
     for name, fn in handlers.items():
         npoints = out['programs'][name]['yield_points']
@@ -312,44 +358,62 @@ def main():
                     out['schedules'].append({'handler': name, 'point': point, 'writer': kind,
                                              'error': traceback.format_exc()[-400:]})
                     continue
-                v = res.mdib_version_group.mdib_version
-                seen = {}
-                if name.startswith('GetMdib'):
-                    _, states = res.result
-                    for s in states:
-                        if getattr(s, 'DescriptorHandle', None) == metric and not s.is_context_state:
-                            seen[metric] = s.StateVersion
-                        elif s.is_context_state and s.Handle == 'p1':
-                            seen['p1'] = s.StateVersion        # GetMdib carries the context states too
-                    descrs = res.result[0]
-                    for d in descrs:
-                        if d.Handle == metric:
-                            seen['descr'] = d.DescriptorVersion
-                elif name == 'GetMdStateGen':
-                    seen['gen_exists'] = any(s.DescriptorHandle == GEN for s in res.result.MdState.State)
-                elif name.startswith('GetMdState'):
-                    for s in res.result.MdState.State:
-                        if s.DescriptorHandle == metric and not s.is_context_state:
-                            seen[metric] = s.StateVersion
-                elif name.startswith('GetContextStates'):
-                    for s in res.result.ContextState:
-                        if s.Handle == 'p1':
-                            seen['p1'] = s.StateVersion
-                elif name.startswith('GetMdDescription'):
-                    for d in res.result.MdDescription.Mds if hasattr(res.result, 'MdDescription') else []:
-                        pass
-                    node = res.p_msg.msg_node if hasattr(res, 'p_msg') else None
-                    if name == 'GetMdDescriptionGen':
-                        # "returns either all descriptors or none": all iff the requested handle exists at that version
-                        seen['gen_exists'] = node is not None and any(el.get('Handle') == metric for el in node.iter())
-                    elif node is not None:
-                        for el in node.iter():
-                            if el.get('Handle') == metric and el.get('DescriptorVersion') is not None:
-                                seen['descr'] = int(el.get('DescriptorVersion'))
+                v, seen = observe(name, res)
                 want = history.get(v, {})
                 bad = {k: [seen[k], want.get(k)] for k in seen if want.get(k) != seen[k]}
                 out['schedules'].append({'handler': name, 'point': point, 'writer': kind, 'response_version': v,
                                          'seen': seen, 'inconsistent': bad})
+    # ---------------- (c) objects the application still holds are written WITHOUT a transaction: no Get response may
+    # show anything but the content of the version it states
+    kept = {}
+    with pm.descriptor_transaction() as tr:
+        kept['descr'] = tr.get_descriptor(metric)
+        kept['descr'].SafetyClassification = list(pm.data_model.pm_types.SafetyClassification)[1]
+    record()
+    with pm.metric_state_transaction() as tr:
+        kept['state'] = tr.get_state(metric)
+        kept['state'].MetricValue.Value = Decimal(4711)
+    record()
+    with pm.context_state_transaction() as tr:
+        kept['ctx'] = tr.get_context_state('p1')
+        kept['ctx'].CoreData.Familyname = 'Kept'
+    record()
+    ent_ctx = pm.entities.by_handle('PC.mds0')
+    ent_m = pm.entities.by_handle(metric)
+
+    def nested_descr(d):
+        if d.Unit is not None:
+            d.Unit.Code = (d.Unit.Code or '') + 'x'
+        if d.Type is not None:
+            d.Type.Code = (d.Type.Code or '') + 'x'
+        for r in list(getattr(d, 'TechnicalRange', None) or []):
+            r.Upper = Decimal(12345)
+
+    mutations = [('descriptor object kept from get_descriptor', lambda: nested_descr(kept['descr'])),
+                 ('state object kept from get_state', lambda: setattr(kept['state'].MetricValue, 'Value', Decimal(99999))),
+                 ('context state object kept from get_context_state', lambda: setattr(kept['ctx'].CoreData, 'Givenname', 'Written')),
+                 ('context state of an entity from entities.by_handle', lambda: setattr(ent_ctx.states['p1'].CoreData, 'Givenname', 'Entity')),
+                 ('state of an entity from entities.by_handle', lambda: setattr(ent_m.state.MetricValue, 'Value', Decimal(88888))),
+                 ('descriptor of an entity from entities.by_handle', lambda: nested_descr(ent_m.descriptor))]
+    for mname, mut in mutations:
+        try:
+            mut()
+        except Exception:  # noqa: BLE001
+            out['schedules'].append({'handler': '-', 'point': -1, 'writer': 'no-transaction write: ' + mname,
+                                     'error': traceback.format_exc()[-300:]})
+            continue
+        for name, fn in handlers.items():
+            try:
+                res = traced_call(fn)
+            except Exception:  # noqa: BLE001
+                out['schedules'].append({'handler': name, 'point': -1, 'writer': 'no-transaction write: ' + mname,
+                                         'error': traceback.format_exc()[-400:]})
+                continue
+            v, seen = observe(name, res)
+            want = history.get(v, {})
+            bad = {k: [seen[k], want.get(k)] for k in seen if want.get(k) != seen[k]}
+            out['schedules'].append({'handler': name, 'point': -1, 'writer': 'no-transaction write: ' + mname,
+                                     'response_version': v, 'seen': seen, 'inconsistent': bad})
     w.stop()
     print(json.dumps(out))
 
